@@ -407,6 +407,15 @@ func runGate(b *runner.Batch, n int, art string) {
 				b.Violation(fmt.Sprintf("%s: upgrading from the current version was not refused with 'already of the latest version': %s %s", art, tr2.State, tr2.Fault), nil)
 			}
 			b.Hit("gate-same-version-refused")
+			// the same with caller data naming an older, supported version: the contract's own version decides
+			tr3 := w.Invoke(s.s, h, "update", real.NEFBytes, real.ManBytes, []any{vs.prev, "caller data"})
+			b.Tx(1)
+			if art != "alphabet" {
+				if tr3.Halted() || !strings.Contains(tr3.Fault, "already of the latest version") {
+					b.Violation(fmt.Sprintf("%s: upgrading from the current version with caller data [%d, ...] was not refused with 'already of the latest version': %s %s", art, vs.prev, tr3.State, tr3.Fault), nil)
+				}
+				b.Hit("gate-same-version-refused-with-caller-data")
+			}
 		}
 		b.Eval(fmt.Sprintf("gate|%s|%s|%s|n%d", art, s.label, tr.State, n), true)
 	}
@@ -420,6 +429,7 @@ type variant struct {
 	notary     string // absent | false | true-empty | true-stale | true-pending   (only for v < 17000)
 	legacyKeys bool   // container: un-prefixed keys
 	snapCount  int64  // netmap: history length set before the ticks (0: PRNG-chosen), with enough ticks to fill it
+	lead       int64  // caller data in front of the version handed to _deploy (0: none)
 }
 
 func serialize(it stackitem.Item) []byte {
@@ -602,9 +612,15 @@ func (e *uenv) poke(h util.Uint160, kv map[string][]byte) error {
 	return flush()
 }
 
-func updateData(art string, v int64) []any {
+// updateData: what ContractManagement hands to _deploy(isUpdate) — the caller's data followed by the deployed
+// version (common.AppendVersion). lead != 0 puts caller data in front: a number chosen so that a reader of
+// the wrong element would take the opposite decision, and a string (seeded change C16-4).
+func updateData(art string, v, lead int64) []any {
 	if art == "alphabet" {
 		return []any{false, nil, nil, "letter", v}
+	}
+	if lead != 0 {
+		return []any{lead, "caller data", v}
 	}
 	return []any{v}
 }
@@ -658,7 +674,10 @@ func runSynthetic(b *runner.Batch, art string, vr variant, containers int) {
 	if len(pokedDump) > 500 {
 		w.SysFee = 8000_0000_0000 // thousands of storage rewrites in one transaction
 	}
-	tr := w.Invoke(nil, B.Hash, "update", real.NEFBytes, real.ManBytes, updateData(art, vr.v))
+	tr := w.Invoke(nil, B.Hash, "update", real.NEFBytes, real.ManBytes, updateData(art, vr.v, vr.lead))
+	if vr.lead != 0 && art != "alphabet" {
+		b.Hit("update-with-leading-caller-data")
+	}
 	w.SysFee = 150_0000_0000
 	b.Tx(1)
 	pending := hasNotarySwitch[art] && art != "audit" && vr.v < 17_000 && vr.notary == "true-pending"
@@ -872,6 +891,16 @@ func runC16(b *runner.Batch) {
 				return
 			}
 		}
+		// caller data in front of the version: an in-range version in front of a refused one and vice versa
+		for _, vl := range [][2]int64{{vs.cur, vs.prev}, {vs.cur - 1, vs.cur}, {vs.prev - 1, vs.cur - 1}} {
+			if vl[0] < 0 {
+				continue
+			}
+			runSynthetic(b, p.art, variant{v: vl[0], notary: "absent", legacyKeys: vl[0] < 17_000, lead: vl[1]}, 2)
+			if b.NViolations() > 0 {
+				return
+			}
+		}
 		if p.art == "netmap" {
 			// histories longer and shorter than the deployed default, completely filled, from the oldest layouts
 			for _, c := range []int64{12, 3} {
@@ -908,6 +937,9 @@ func runC16(b *runner.Batch) {
 			v = c[0] + b.Rng.Int64N(c[1]-c[0]+1)
 		}
 		vr := variant{v: v, notary: notaryKinds[(p.idx*3+p.idx/5)%len(notaryKinds)], legacyKeys: b.Rng.IntN(3) != 0}
+		if b.Rng.IntN(3) == 0 {
+			vr.lead = vs.cur
+		}
 		containers := 2 + b.Rng.IntN(5)
 		if art == "container" && p.idx%35 == 1 {
 			containers = 1200 // the migration iterates the store it rewrites
@@ -928,7 +960,7 @@ func init() {
 		Batches: func(t string) int { return len(plans(t)) },
 		Helpers: []string{"probe", "shim"}, Chunk: 2,
 		Prepare: prepareLow,
-		Floors: []string{"gate-refused:nobody", "gate-refused:half-committee", "gate-refused:single-member", "gate-refused:alphabet", "gate-refused:chain-majority", "gate-refused:inner-ring-majority", "gate-accepted:balance", "gate-accepted:container", "gate-accepted:netmap", "gate-accepted:nns", "gate-accepted:neofs", "gate-accepted:processing", "gate-accepted:proxy", "gate-accepted:alphabet", "gate-accepted:audit", "gate-accepted:neofsid", "gate-accepted:reputation", "gate-same-version-refused", "gate-refused:dismissed-inner-ring-majority", "gate-accepted-after-rotation", "netmap-history-of-12-filled", "netmap-history-of-3-filled",
+		Floors: []string{"gate-refused:nobody", "gate-refused:half-committee", "gate-refused:single-member", "gate-refused:alphabet", "gate-refused:chain-majority", "gate-refused:inner-ring-majority", "gate-accepted:balance", "gate-accepted:container", "gate-accepted:netmap", "gate-accepted:nns", "gate-accepted:neofs", "gate-accepted:processing", "gate-accepted:proxy", "gate-accepted:alphabet", "gate-accepted:audit", "gate-accepted:neofsid", "gate-accepted:reputation", "gate-same-version-refused", "gate-same-version-refused-with-caller-data", "update-with-leading-caller-data", "gate-refused:dismissed-inner-ring-majority", "gate-accepted-after-rotation", "netmap-history-of-12-filled", "netmap-history-of-3-filled",
 			"bounds-refused:too-old", "bounds-refused:not-older", "bounds-refused:pending-vote", "upgrade-ok:<0.16", "upgrade-ok:<0.17", "upgrade-ok:<0.18", "upgrade-ok:<0.19", "upgrade-ok:<0.20", "notary-flag:true-stale", "notary-flag:true-empty", "notary-flag:false", "version-bounds:nns", "version-bounds:balance", "dump-upgraded"},
 		Run: runC16,
 	})
